@@ -35,6 +35,21 @@ def _t_rpcerr(code, message, data=ABSENT):
         return ('exception', ('ValueError', 'probe misuse'), ('rpcerr', (code, message, data), {}))
     return ('error', (code, message, data), ('rpcerr', (code, message, data), {}))
 def _t_typed(data=ABSENT): return ('error', (TYPED_CODE, TYPED_MESSAGE, data), ('typed', (data,), {}))
+def _t_typedctor(uid=0): return ('error', (70002, 'probe ctor error', {'uid': uid, 'hint': 'h'}), ('typedctor', (uid,), {}))
+
+
+LIB_ERRORS = {'ParseError': (-32700, 'Parse error'), 'InvalidRequestError': (-32600, 'Invalid Request'),
+              'MethodNotFoundError': (-32601, 'Method not found'), 'InvalidParamsError': (-32602, 'Invalid params'),
+              'InternalError': (-32603, 'Internal error'), 'ServerError': (-32000, 'Server error')}
+
+
+def _t_raiselib(name, data=ABSENT):
+    if not isinstance(name, str) or name not in LIB_ERRORS:
+        return ('exception', ('KeyError', 'nolib'), ('raiselib', (name, data), {}))
+    code, message = LIB_ERRORS[name]
+    return ('error', (code, message, data), ('raiselib', (name, data), {}))
+
+
 def _t_boom(kind, marker='m'): return ('exception', (kind, marker), ('boom', (kind, marker), {}))
 def _t_ctxm(a=0): return ('ctx-result', a, ('ctxm', (a,), {}))
 def _t_fac1(x): return ('result', ['fac1', x], ('fac1', (x,), {}))
@@ -73,6 +88,7 @@ def _t_vm(a, b=0): return ('result', ['vm', a, b], ('view.vm', (a, b), {}))
 TWINS = {
     'ok': _t_ok, 'noargs': _t_noargs, 'echo': _t_echo, 'kwonly': _t_kwonly, 'rpcerr': _t_rpcerr,
     'typed': _t_typed, 'js_checked': _t_js_checked, 'js_loose': _t_js_loose, 'slowfail': _t_slowfail, 'byid': _t_byid, 'wrapped': _t_wrapped, 'whoami': _t_whoami, 'ctxp': _t_ctxp, 'slow': _t_slow, 'fac1': _t_fac1, 'fac2': _t_fac2, 'boom': _t_boom, 'ctxm': _t_ctxm, 'view.vm': _t_vm,
+    'typedctor': _t_typedctor, 'raiselib': _t_raiselib,
 }
 
 
